@@ -320,3 +320,202 @@ package biscuit
 //@ ensures no_authorizer_on_error: err != nil ==> res == nil
 //@ ensures accept_iff_chain[C01]: (err == nil) == (chainOK(b.container, bview(root)) && proofOK(b.container))
 //@ ensures passes_options[C11]: err == nil ==> limitsOf(res) == optLimits(opts)
+
+// ---------------------------------------------------------------------------
+// builder-level values to datalog values and back (types.go): C07 C10 C14
+
+//@ iface (t Term) convert(symbols *datalog.SymbolTable) (res datalog.Term)
+//@ serves C07 C10 C14
+//@ requires symbols != nil && bTermWF(t)
+//@ modifies *symbols, spare(*symbols)
+//@ ensures wf: termWF(res)
+//@ ensures table: symsGrown(*symbols, old(*symbols)) && (forall j int :: { (*symbols)[j] } 0 <= j && j < old(len(*symbols)) ==> (*symbols)[j] == old((*symbols)[j]))
+//@ ensures flat: !(t is Set) ==> !(res is datalog.Set)
+//@ ensures integer: t is Integer ==> res is datalog.Integer && res.(datalog.Integer) == t.(Integer)
+//@ ensures boolean: t is Bool ==> res is datalog.Bool && res.(datalog.Bool) == t.(Bool)
+//@ ensures bytes: t is Bytes ==> res is datalog.Bytes && res.(datalog.Bytes) == t.(Bytes)
+//@ ensures str: t is String ==> res is datalog.String && symValid(symbols, res.(datalog.String)) && symStr(symbols, res.(datalog.String)) == t.(String)
+//@ ensures variable: t is Variable ==> res is datalog.Variable
+//@ ensures date: t is Date ==> res is datalog.Date
+//@ ensures set: t is Set ==> res is datalog.Set && len(res.(datalog.Set)) == len(t.(Set))
+
+//@ func (a Set) convert(symbols *datalog.SymbolTable) (res datalog.Term)
+//@ serves C07 C10 C14
+//@ requires symbols != nil && bTermsFlat(a)
+//@ modifies *symbols, spare(*symbols)
+//@ loop 0 invariant len(datalogSet) == #i && cap(datalogSet) == len(a) && fresh(arr(datalogSet)) && off(datalogSet) == 0
+//@ loop 0 invariant elems: forall k int :: { datalogSet[k] } 0 <= k && k < len(datalogSet) ==> datalogSet[k] != nil && !(datalogSet[k] is datalog.Set)
+//@ loop 0 invariant table: symsGrown(*symbols, old(*symbols)) && (forall j int :: { (*symbols)[j] } 0 <= j && j < old(len(*symbols)) ==> (*symbols)[j] == old((*symbols)[j]))
+//@ ensures res is datalog.Set && len(res.(datalog.Set)) == len(a) && termWF(res)
+
+//@ func (p Predicate) convert(symbols *datalog.SymbolTable) (res datalog.Predicate)
+//@ serves C07 C10 C14
+//@ requires symbols != nil && bPredWF(p)
+//@ modifies *symbols, spare(*symbols)
+//@ loop 0 invariant len(ids) == #i && (len(ids) > 0 ==> fresh(arr(ids))) && (len(ids) == 0 ==> cap(ids) == 0) && termsWF(ids)
+//@ loop 0 invariant table: symsGrown(*symbols, old(*symbols)) && (forall j int :: { (*symbols)[j] } 0 <= j && j < old(len(*symbols)) ==> (*symbols)[j] == old((*symbols)[j]))
+//@ ensures wf: predWF(res) && len(res.Terms) == len(p.IDs)
+//@ ensures name: symValid(symbols, res.Name) && symStr(symbols, res.Name) == p.Name
+//@ ensures owns: len(res.Terms) > 0 ==> fresh(arr(res.Terms))
+//@ ensures table: symsGrown(*symbols, old(*symbols)) && (forall j int :: { (*symbols)[j] } 0 <= j && j < old(len(*symbols)) ==> (*symbols)[j] == old((*symbols)[j]))
+
+//@ func (f Fact) convert(symbols *datalog.SymbolTable) (res datalog.Fact)
+//@ serves C07 C10 C14
+//@ requires symbols != nil && bPredWF(f.Predicate)
+//@ modifies *symbols, spare(*symbols)
+//@ ensures wf: predWF(res.Predicate) && len(res.Predicate.Terms) == len(f.Predicate.IDs)
+//@ ensures name: symValid(symbols, res.Predicate.Name) && symStr(symbols, res.Predicate.Name) == f.Predicate.Name
+//@ ensures table: symsGrown(*symbols, old(*symbols)) && (forall j int :: { (*symbols)[j] } 0 <= j && j < old(len(*symbols)) ==> (*symbols)[j] == old((*symbols)[j]))
+
+//@ iface (o Op) convert(symbols *datalog.SymbolTable) (res datalog.Op)
+//@ serves C07 C10 C14
+//@ requires symbols != nil && bOpWF(o)
+//@ modifies *symbols, spare(*symbols)
+//@ ensures wf: opWF(res)
+//@ ensures table: symsGrown(*symbols, old(*symbols)) && (forall j int :: { (*symbols)[j] } 0 <= j && j < old(len(*symbols)) ==> (*symbols)[j] == old((*symbols)[j]))
+//@ ensures value: o is Value ==> res is datalog.Value
+//@ ensures unary: o is UnaryOp ==> res is datalog.UnaryOp
+//@ ensures binary: o is BinaryOp ==> res is datalog.BinaryOp
+//@ ensures negate: o is UnaryOp && o.(UnaryOp) == UnaryNegate ==> res.(datalog.UnaryOp).UnaryOpFunc is datalog.Negate
+//@ ensures parens: o is UnaryOp && o.(UnaryOp) == UnaryParens ==> res.(datalog.UnaryOp).UnaryOpFunc is datalog.Parens
+//@ ensures length: o is UnaryOp && o.(UnaryOp) == UnaryLength ==> res.(datalog.UnaryOp).UnaryOpFunc is datalog.Length
+//@ ensures lt: o is BinaryOp && o.(BinaryOp) == BinaryLessThan ==> res.(datalog.BinaryOp).BinaryOpFunc is datalog.LessThan
+//@ ensures le: o is BinaryOp && o.(BinaryOp) == BinaryLessOrEqual ==> res.(datalog.BinaryOp).BinaryOpFunc is datalog.LessOrEqual
+//@ ensures gt: o is BinaryOp && o.(BinaryOp) == BinaryGreaterThan ==> res.(datalog.BinaryOp).BinaryOpFunc is datalog.GreaterThan
+//@ ensures ge: o is BinaryOp && o.(BinaryOp) == BinaryGreaterOrEqual ==> res.(datalog.BinaryOp).BinaryOpFunc is datalog.GreaterOrEqual
+//@ ensures eq: o is BinaryOp && o.(BinaryOp) == BinaryEqual ==> res.(datalog.BinaryOp).BinaryOpFunc is datalog.Equal
+//@ ensures contains: o is BinaryOp && o.(BinaryOp) == BinaryContains ==> res.(datalog.BinaryOp).BinaryOpFunc is datalog.Contains
+//@ ensures prefix: o is BinaryOp && o.(BinaryOp) == BinaryPrefix ==> res.(datalog.BinaryOp).BinaryOpFunc is datalog.Prefix
+//@ ensures suffix: o is BinaryOp && o.(BinaryOp) == BinarySuffix ==> res.(datalog.BinaryOp).BinaryOpFunc is datalog.Suffix
+//@ ensures regex: o is BinaryOp && o.(BinaryOp) == BinaryRegex ==> res.(datalog.BinaryOp).BinaryOpFunc is datalog.Regex
+//@ ensures add: o is BinaryOp && o.(BinaryOp) == BinaryAdd ==> res.(datalog.BinaryOp).BinaryOpFunc is datalog.Add
+//@ ensures sub: o is BinaryOp && o.(BinaryOp) == BinarySub ==> res.(datalog.BinaryOp).BinaryOpFunc is datalog.Sub
+//@ ensures mul: o is BinaryOp && o.(BinaryOp) == BinaryMul ==> res.(datalog.BinaryOp).BinaryOpFunc is datalog.Mul
+//@ ensures div: o is BinaryOp && o.(BinaryOp) == BinaryDiv ==> res.(datalog.BinaryOp).BinaryOpFunc is datalog.Div
+//@ ensures and: o is BinaryOp && o.(BinaryOp) == BinaryAnd ==> res.(datalog.BinaryOp).BinaryOpFunc is datalog.And
+//@ ensures or: o is BinaryOp && o.(BinaryOp) == BinaryOr ==> res.(datalog.BinaryOp).BinaryOpFunc is datalog.Or
+//@ ensures intersection: o is BinaryOp && o.(BinaryOp) == BinaryIntersection ==> res.(datalog.BinaryOp).BinaryOpFunc is datalog.Intersection
+//@ ensures union: o is BinaryOp && o.(BinaryOp) == BinaryUnion ==> res.(datalog.BinaryOp).BinaryOpFunc is datalog.Union
+
+//@ func (e Expression) convert(symbols *datalog.SymbolTable) (res datalog.Expression)
+//@ serves C07 C10 C14
+//@ requires symbols != nil && bExprWF(e)
+//@ modifies *symbols, spare(*symbols)
+//@ loop 0 invariant len(expr) == len(e) && fresh(arr(expr)) && (forall k int :: { expr[k] } 0 <= k && k < #i ==> opWF(expr[k]))
+//@ loop 0 invariant table: symsGrown(*symbols, old(*symbols)) && (forall j int :: { (*symbols)[j] } 0 <= j && j < old(len(*symbols)) ==> (*symbols)[j] == old((*symbols)[j]))
+//@ ensures wf: exprWF(res) && len(res) == len(e) && fresh(arr(res))
+//@ ensures table: symsGrown(*symbols, old(*symbols)) && (forall j int :: { (*symbols)[j] } 0 <= j && j < old(len(*symbols)) ==> (*symbols)[j] == old((*symbols)[j]))
+
+//@ func (r Rule) convert(symbols *datalog.SymbolTable) (res datalog.Rule)
+//@ serves C07 C10 C14
+//@ requires symbols != nil && bRuleWF(r)
+//@ modifies *symbols, spare(*symbols)
+//@ loop 0 invariant len(dlBody) == len(r.Body) && fresh(arr(dlBody)) && (forall k int :: { dlBody[k] } 0 <= k && k < #i ==> predWF(dlBody[k]) && len(dlBody[k].Terms) == len(r.Body[k].IDs))
+//@ loop 0 invariant table: symsGrown(*symbols, old(*symbols)) && (forall j int :: { (*symbols)[j] } 0 <= j && j < old(len(*symbols)) ==> (*symbols)[j] == old((*symbols)[j]))
+//@ loop 1 invariant len(dlBody) == len(r.Body) && fresh(arr(dlBody)) && predsWF(dlBody) && len(dlExpressions) == len(r.Expressions) && fresh(arr(dlExpressions)) && (forall k int :: { dlExpressions[k] } 0 <= k && k < #i ==> exprWF(dlExpressions[k]))
+//@ loop 1 invariant table: symsGrown(*symbols, old(*symbols)) && (forall j int :: { (*symbols)[j] } 0 <= j && j < old(len(*symbols)) ==> (*symbols)[j] == old((*symbols)[j]))
+//@ ensures wf: ruleWF(res) && len(res.Body) == len(r.Body) && len(res.Expressions) == len(r.Expressions) && len(res.Head.Terms) == len(r.Head.IDs)
+//@ ensures table: symsGrown(*symbols, old(*symbols)) && (forall j int :: { (*symbols)[j] } 0 <= j && j < old(len(*symbols)) ==> (*symbols)[j] == old((*symbols)[j]))
+
+//@ func (c Check) convert(symbols *datalog.SymbolTable) (res datalog.Check)
+//@ serves C07 C10 C14
+//@ requires symbols != nil && bCheckWF(c)
+//@ modifies *symbols, spare(*symbols)
+//@ loop 0 invariant len(queries) == len(c.Queries) && fresh(arr(queries)) && (forall k int :: { queries[k] } 0 <= k && k < #i ==> ruleWF(queries[k]))
+//@ loop 0 invariant table: symsGrown(*symbols, old(*symbols)) && (forall j int :: { (*symbols)[j] } 0 <= j && j < old(len(*symbols)) ==> (*symbols)[j] == old((*symbols)[j]))
+//@ ensures wf: checkWF(res) && len(res.Queries) == len(c.Queries)
+//@ ensures table: symsGrown(*symbols, old(*symbols)) && (forall j int :: { (*symbols)[j] } 0 <= j && j < old(len(*symbols)) ==> (*symbols)[j] == old((*symbols)[j]))
+
+// datalog values back to builder-level values (resolution against a symbol table)
+
+//@ func fromDatalogID(symbols *datalog.SymbolTable, id datalog.Term) (a Term, err error)
+//@ serves C07 C10
+//@ requires symbols != nil && termWF(id)
+//@ modifies nothing
+//@ loop 0 invariant len(set) == #i && fresh(arr(set)) && cap(set) == len(setIDs) && (forall k int :: { set[k] } 0 <= k && k < len(set) ==> set[k] != nil && !(set[k] is Set))
+//@ ensures total: err == nil && bTermWF(a)
+//@ ensures flat: !(id is datalog.Set) ==> !(a is Set)
+//@ ensures integer: id is datalog.Integer ==> a is Integer && a.(Integer) == id.(datalog.Integer)
+//@ ensures boolean: id is datalog.Bool ==> a is Bool && a.(Bool) == id.(datalog.Bool)
+//@ ensures bytes: id is datalog.Bytes ==> a is Bytes && a.(Bytes) == id.(datalog.Bytes)
+//@ ensures str: id is datalog.String ==> a is String && (symValid(symbols, id.(datalog.String)) ==> a.(String) == symStr(symbols, id.(datalog.String)))
+//@ ensures variable: id is datalog.Variable ==> a is Variable
+//@ ensures date: id is datalog.Date ==> a is Date
+//@ ensures set: id is datalog.Set ==> a is Set && len(a.(Set)) == len(id.(datalog.Set))
+
+//@ func fromDatalogPredicate(symbols *datalog.SymbolTable, p datalog.Predicate) (res *Predicate, err error)
+//@ serves C07 C10
+//@ requires symbols != nil && predWF(p)
+//@ modifies nothing
+//@ loop 0 invariant len(terms) == #i && fresh(arr(terms)) && cap(terms) == len(p.Terms) && bTermsWF(terms)
+//@ ensures total: err == nil && res != nil && fresh(res) && bPredWF(*res) && len(res.IDs) == len(p.Terms)
+//@ ensures name: symValid(symbols, p.Name) ==> res.Name == symStr(symbols, p.Name)
+
+//@ func fromDatalogFact(symbols *datalog.SymbolTable, f datalog.Fact) (res *Fact, err error)
+//@ serves C07 C10
+//@ requires symbols != nil && predWF(f.Predicate)
+//@ modifies nothing
+//@ ensures total: err == nil && res != nil && fresh(res) && bPredWF(res.Predicate) && len(res.Predicate.IDs) == len(f.Predicate.Terms)
+//@ ensures name: symValid(symbols, f.Predicate.Name) ==> res.Predicate.Name == symStr(symbols, f.Predicate.Name)
+
+//@ func fromDatalogValueOp(symbols *datalog.SymbolTable, dlValue datalog.Value) (res Op, err error)
+//@ serves C07 C10
+//@ requires symbols != nil && termWF(dlValue.ID)
+//@ modifies nothing
+//@ ensures err == nil && res is Value && bTermWF(res.(Value).Term)
+
+//@ func fromDatalogUnaryOp(symbols *datalog.SymbolTable, dlUnary datalog.UnaryOp) (res Op, err error)
+//@ serves C07 C10
+//@ requires dlUnary.UnaryOpFunc != nil
+//@ modifies nothing
+//@ ensures total: err == nil && res is UnaryOp && 1 <= res.(UnaryOp) && res.(UnaryOp) <= 3
+//@ ensures negate: dlUnary.UnaryOpFunc is datalog.Negate ==> res.(UnaryOp) == UnaryNegate
+//@ ensures parens: dlUnary.UnaryOpFunc is datalog.Parens ==> res.(UnaryOp) == UnaryParens
+//@ ensures length: dlUnary.UnaryOpFunc is datalog.Length ==> res.(UnaryOp) == UnaryLength
+
+//@ func fromDatalogBinaryOp(symbols *datalog.SymbolTable, dbBinary datalog.BinaryOp) (res Op, err error)
+//@ serves C07 C10
+//@ requires dbBinary.BinaryOpFunc != nil
+//@ modifies nothing
+//@ ensures total: err == nil && res is BinaryOp && 1 <= res.(BinaryOp) && res.(BinaryOp) <= 17
+//@ ensures lt: dbBinary.BinaryOpFunc is datalog.LessThan ==> res.(BinaryOp) == BinaryLessThan
+//@ ensures le: dbBinary.BinaryOpFunc is datalog.LessOrEqual ==> res.(BinaryOp) == BinaryLessOrEqual
+//@ ensures gt: dbBinary.BinaryOpFunc is datalog.GreaterThan ==> res.(BinaryOp) == BinaryGreaterThan
+//@ ensures ge: dbBinary.BinaryOpFunc is datalog.GreaterOrEqual ==> res.(BinaryOp) == BinaryGreaterOrEqual
+//@ ensures eq: dbBinary.BinaryOpFunc is datalog.Equal ==> res.(BinaryOp) == BinaryEqual
+//@ ensures contains: dbBinary.BinaryOpFunc is datalog.Contains ==> res.(BinaryOp) == BinaryContains
+//@ ensures prefix: dbBinary.BinaryOpFunc is datalog.Prefix ==> res.(BinaryOp) == BinaryPrefix
+//@ ensures suffix: dbBinary.BinaryOpFunc is datalog.Suffix ==> res.(BinaryOp) == BinarySuffix
+//@ ensures regex: dbBinary.BinaryOpFunc is datalog.Regex ==> res.(BinaryOp) == BinaryRegex
+//@ ensures add: dbBinary.BinaryOpFunc is datalog.Add ==> res.(BinaryOp) == BinaryAdd
+//@ ensures sub: dbBinary.BinaryOpFunc is datalog.Sub ==> res.(BinaryOp) == BinarySub
+//@ ensures mul: dbBinary.BinaryOpFunc is datalog.Mul ==> res.(BinaryOp) == BinaryMul
+//@ ensures div: dbBinary.BinaryOpFunc is datalog.Div ==> res.(BinaryOp) == BinaryDiv
+//@ ensures and: dbBinary.BinaryOpFunc is datalog.And ==> res.(BinaryOp) == BinaryAnd
+//@ ensures or: dbBinary.BinaryOpFunc is datalog.Or ==> res.(BinaryOp) == BinaryOr
+//@ ensures intersection: dbBinary.BinaryOpFunc is datalog.Intersection ==> res.(BinaryOp) == BinaryIntersection
+//@ ensures union: dbBinary.BinaryOpFunc is datalog.Union ==> res.(BinaryOp) == BinaryUnion
+
+//@ func fromDatalogExpression(symbols *datalog.SymbolTable, dlExpr datalog.Expression) (res Expression, err error)
+//@ serves C07 C10
+//@ requires symbols != nil && exprWF(dlExpr)
+//@ modifies nothing
+//@ loop 0 invariant len(expr) == len(dlExpr) && fresh(arr(expr)) && (forall k int :: { expr[k] } 0 <= k && k < #i ==> bOpWF(expr[k]))
+//@ ensures total: err == nil && bExprWF(res) && len(res) == len(dlExpr)
+
+//@ func fromDatalogRule(symbols *datalog.SymbolTable, dlRule datalog.Rule) (res *Rule, err error)
+//@ serves C07 C10
+//@ requires symbols != nil && ruleWF(dlRule)
+//@ modifies nothing
+//@ loop 0 invariant head != nil && bPredWF(*head) && len(head.IDs) == len(dlRule.Head.Terms)
+//@ loop 1 invariant head != nil && bPredWF(*head) && len(head.IDs) == len(dlRule.Head.Terms)
+//@ loop 0 invariant len(body) == len(dlRule.Body) && fresh(arr(body)) && (forall k int :: { body[k] } 0 <= k && k < #i ==> bPredWF(body[k]) && len(body[k].IDs) == len(dlRule.Body[k].Terms))
+//@ loop 1 invariant len(body) == len(dlRule.Body) && fresh(arr(body)) && bPredsWF(body) && len(expressions) == len(dlRule.Expressions) && fresh(arr(expressions)) && (forall k int :: { expressions[k] } 0 <= k && k < #i ==> bExprWF(expressions[k]))
+//@ ensures total: err == nil && res != nil && fresh(res) && bRuleWF(*res) && len(res.Body) == len(dlRule.Body) && len(res.Expressions) == len(dlRule.Expressions) && len(res.Head.IDs) == len(dlRule.Head.Terms)
+
+//@ func fromDatalogCheck(symbols *datalog.SymbolTable, dlCheck datalog.Check) (res *Check, err error)
+//@ serves C07 C10
+//@ requires symbols != nil && checkWF(dlCheck)
+//@ modifies nothing
+//@ loop 0 invariant len(queries) == len(dlCheck.Queries) && fresh(arr(queries)) && (forall k int :: { queries[k] } 0 <= k && k < #i ==> bRuleWF(queries[k]))
+//@ ensures total: err == nil && res != nil && fresh(res) && bCheckWF(*res) && len(res.Queries) == len(dlCheck.Queries)
